@@ -52,17 +52,17 @@ def run(ctx):
     if not debug_fast:
         bg.tlc_expect_violation(ctx, "AutoInc.tla", "c28_neg_nolock.cfg", "GeneratedValuesUnique")
     env = {"VERIF_ONLY": "c28"}
-    beh = bg.drop_prefixes(ctx.tlc_behaviours("AutoInc.tla", ctx.q("c28_sim_quick.cfg", "c28_sim_thorough.cfg"), num=ctx.q(150, 1200), depth=ctx.q(30, 50)))
+    beh = bg.drop_prefixes(ctx.tlc_behaviours("AutoInc.tla", ctx.q("c28_sim_quick.cfg", "c28_sim_thorough.cfg"), num=ctx.q(100, 400), depth=ctx.q(30, 50)))
     ctx.cov["action_histogram"] = bg.require_actions(beh, ["InsertGen", "InsertExplicit", "Delete", "AlterAI", "Commit", "Rollback", "Checkout", "Read"], "autoinc")
     cs = bg.ai_cases(ctx, beh)
     ctx.binding_selftest(binary, cs[0], corrupt_lid, args=["replay"], env=env)
-    ctx.replay_behaviours(binary, cs, args=["replay"], critical=critical, wrap=lambda c: c, env=env, timeout=ctx.q(3600, 14400),
+    bg.replay_chunked(ctx, binary, cs, args=["replay"], critical=critical, wrap=lambda c: c, env=env, timeout=ctx.q(3600, 14400),
                           fingerprint=lambda c, r: "C28:" + str(r.get("fp")))
     # T mode
     sess = ["s1", "s2", "s3", "s4", "s5", "s6"]
     base = {"Sessions": sess, "Branches": ["main", "b1"], "Main": "main", "Tables": ["u", "v"]}
-    sql_cases = [dict(base, workload="autoinc", M=ctx.q(12, 20), seed=ctx.seed * 1000 + i, binding={"idtype": bg.AI_IDTYPES[i % 4]}) for i in range(ctx.q(4, 16))]
-    trk_cases = [dict(base, workload="tracker", M=ctx.q(100, 150), seed=ctx.seed * 1000 + 100 + i, binding={"idtype": "int"}) for i in range(ctx.q(8, 24))]
+    sql_cases = [dict(base, workload="autoinc", M=ctx.q(12, 20), seed=ctx.seed * 1000 + i, binding={"idtype": bg.AI_IDTYPES[i % 4]}) for i in range(ctx.q(4, 8))]
+    trk_cases = [dict(base, workload="tracker", M=ctx.q(100, 150), seed=ctx.seed * 1000 + 100 + i, binding={"idtype": "int"}) for i in range(ctx.q(8, 12))]
     nt = lambda tr: len({e["s"] for e in tr if e.get("ev") == "call"}) >= 2
     bg.stress_validate(ctx, "C28", binary, sql_cases, "TraceAutoInc.tla", "c28_trace.cfg", corrupt=corrupt_trace, nontrivial=nt)
     bg.stress_validate(ctx, "C28", binary, trk_cases, "TraceAutoInc.tla", "c28_trace.cfg", nontrivial=nt)
